@@ -4,12 +4,14 @@ go 1.23
 
 require (
 	github.com/TimothyStiles/poly v0.0.0
+	github.com/google/go-cmp v0.4.1
 	lukechampine.com/blake3 v1.0.0
 )
 
 require (
 	github.com/mitchellh/go-wordwrap v1.0.0 // indirect
 	github.com/mroth/weightedrand v0.2.1 // indirect
+	golang.org/x/xerrors v0.0.0-20191204190536-9bdfabe68543 // indirect
 )
 
 replace github.com/TimothyStiles/poly => /repo
